@@ -565,9 +565,8 @@ def run_F(aa, v, m, g, gi, seed, t):
 
 # ---- I: the iterative scheme ------------------------------------------------------------------------------------------
 
-EPS_VAL = 1e-12
-
-
+# Uncertainty of a reference level value = spread over position variants shifted by +-1e-12*scale (the library's own
+# positions differ from the reference by ~1e-16*scale) + 1e-14*|value| + 1e-15*max|sub-value| (summation rounding).
 def _decide_core(prev, cur, frac, tol):
     """The statement: agreement = ratio of the smaller to the larger value, defined only when the previous value is
     positive; must meet the fractional accuracy and, if set, the absolute-difference tolerance. None = within the
@@ -589,10 +588,11 @@ def _decide_core(prev, cur, frac, tol):
     return ok
 
 
-def _decide(prev, prev_zero, cur, cur_zero, frac, tol):
-    """Robust decision: values that are not exact (robust) zeros are perturbed by +-EPS_VAL; any disagreement => None."""
-    ps = (prev,) if prev_zero else (prev - EPS_VAL, prev, prev + EPS_VAL)
-    cs = (cur,) if cur_zero else (cur - EPS_VAL, cur, cur + EPS_VAL)
+def _decide(prev, prev_zero, prev_eps, cur, cur_zero, cur_eps, frac, tol):
+    """Robust decision: values that are not exact (robust) zeros are perturbed by +- their uncertainty; any
+    disagreement (or a tie band hit) => None."""
+    ps = (prev,) if prev_zero else (prev - prev_eps, prev, prev + prev_eps)
+    cs = (cur,) if cur_zero else (cur - cur_eps, cur, cur + cur_eps)
     res = set()
     for a in ps:
         for b in cs:
@@ -603,25 +603,26 @@ def _decide(prev, prev_zero, cur, cur_zero, frac, tol):
 
 
 def ref_iterate(lv, steps, frac, tol, n):
-    """Per pixel: (expected value, index of the schedule entry whose value is returned, or 'skip')."""
+    """Per pixel: (expected value, index of the schedule entry whose value is returned, or 'skip').
+    lv[s] = (value, robust-exact-zero flag, ambiguous flag, uncertainty) per pixel for sub-size s."""
     exp = np.zeros(n)
     stop = []
     for k in range(n):
-        prev, pz, pa = lv[1][0][k], lv[1][1][k], lv[1][2][k]
+        prev, pz, pa, pe = (lv[1][i][k] for i in range(4))
         chosen = None
         for idx, s in enumerate(steps[:-1]):
-            cur, cz, ca = lv[s][0][k], lv[s][1][k], lv[s][2][k]
+            cur, cz, ca, ce = (lv[s][i][k] for i in range(4))
             if pa or ca:
                 chosen = "skip"
                 break
-            d = _decide(prev, pz, cur, cz, frac, tol)
+            d = _decide(prev, pz, pe, cur, cz, ce, frac, tol)
             if d is None:
                 chosen = "skip"
                 break
             if d:
                 chosen = idx
                 break
-            prev, pz, pa = cur, cz, ca
+            prev, pz, pa, pe = cur, cz, ca, ce
         if chosen is None:
             chosen = len(steps) - 1
             if lv[steps[-1]][2][k]:
@@ -630,6 +631,12 @@ def ref_iterate(lv, steps, frac, tol, n):
         if chosen != "skip":
             exp[k] = lv[steps[chosen]][0][k]
     return exp, stop
+
+
+def _itol(lv, steps, j, k):
+    """Comparison tolerance for the value of schedule entry j at pixel k: relative 1e-9 + 100 x its uncertainty."""
+    val, _, _, eps = (lv[steps[j]][i][k] for i in range(4))
+    return 1e-9 * abs(val) + 100.0 * eps
 
 
 def run_I(aa, v, m, g, gi, seed, t):
@@ -649,14 +656,15 @@ def run_I(aa, v, m, g, gi, seed, t):
     for fi, name in enumerate(IT_PROGRAMS):
         lv = {}
         for s, pts in pts_l.items():
-            vs = np.stack([feval(name, pts[:, 0] + dy, pts[:, 1] + dx, par).reshape(n, s * s).sum(axis=1) / float(s * s)
-                           for dy, dx in deltas])
+            raw = [feval(name, pts[:, 0] + dy, pts[:, 1] + dx, par).reshape(n, s * s) for dy, dx in deltas]
+            vs = np.stack([r.sum(axis=1) / float(s * s) for r in raw])
             base = vs[0]
             allzero = np.all(vs == 0, axis=0)
             anyzero = np.any(vs == 0, axis=0)
             spread = vs.max(axis=0) - vs.min(axis=0)
-            amb = (anyzero & ~allzero) | (spread > 1e-9 * (1.0 + np.abs(base)))
-            lv[s] = (base, allzero, amb)
+            eps = spread + 1e-14 * np.abs(base) + 1e-15 * np.abs(raw[0]).max(axis=1)
+            amb = (anyzero & ~allzero) | (spread > 1e-6 * (1.0 + np.abs(base)))
+            lv[s] = (base, allzero, amb, eps)
         centre_all_zero = bool(np.all(lv[1][1]))
         centre_ambiguous = bool(np.any(lv[1][2])) and bool(np.all(lv[1][1] | lv[1][2]))
         for ci, (steps, frac, tol) in enumerate(configs):
@@ -675,7 +683,7 @@ def run_I(aa, v, m, g, gi, seed, t):
             if centre_all_zero:
                 # every value at sub-size one is exactly zero: the previous value is never positive, so the statement
                 # prescribes the value at the last sub-size for every pixel
-                good = all(stop[k] == "skip" or abs(got[k] - exp[k]) <= 1e-11 * (1 + abs(exp[k])) for k in range(n))
+                good = all(stop[k] == "skip" or abs(got[k] - exp[k]) <= _itol(lv, steps, stop[k], k) for k in range(n))
                 if not good and not np.any(got):
                     shortcut += 1
                     v.fail("iterate:all-zero-at-sub-size-one-early-return",
@@ -688,12 +696,11 @@ def run_I(aa, v, m, g, gi, seed, t):
                     nskip += 1
                     continue
                 seen_levels.add(stop[k] if stop[k] < len(steps) - 1 else "last")
-                okk = abs(got[k] - exp[k]) <= 1e-11 * (1 + abs(exp[k]))
+                okk = abs(got[k] - exp[k]) <= _itol(lv, steps, stop[k], k)
                 if okk:
                     v.ok(True, "iterate:stopping-rule")
                     continue
-                other = [j for j in range(len(steps)) if j != stop[k]
-                         and abs(got[k] - lv[steps[j]][0][k]) <= 1e-11 * (1 + abs(got[k]))]
+                other = [j for j in range(len(steps)) if j != stop[k] and abs(got[k] - lv[steps[j]][0][k]) <= _itol(lv, steps, j, k)]
                 vals = [float(lv[s][0][k]) for s in [1] + list(steps)]
                 msg = "%s pixel %d: got %r, want %r (schedule entry %s); level values [1]+steps=%s" % (
                     tag, k, float(got[k]), float(exp[k]), stop[k], vals)
